@@ -585,3 +585,8 @@ def run(index, rep, tier):
             rep.check(ok, "R09.16", rd.qualname, "separator %r between member symbols is read as a state symbol" % sep, fn_where(rd, inner[0]), "separator %r of member_states_str is skipped by the reader" % sep,
                       "StateIdentity.member_states_str renders a symbol-less ambiguous / polymorphic state as its members joined by %r (`{0,1}`), and that is what the NEXUS writer puts into the matrix; NexusReader._read_character_states joins every token between the brackets and looks the result up symbol by symbol, so %r is an unknown state symbol: a standard matrix with an uncoded multistate cell cannot be read back from the NEXUS the library wrote" % (sep, sep))
         rep.floor("R09.16", "separators in member_states_str", 1, len(seps))
+
+    # ---- R09.17 rules owned by other properties that this one rests on
+    with rep.section("R09.17"):
+        rep.rule("R09.17", "a matrix obtained by copying or exporting keeps its state alphabets (C12 R12.8), and NeXML attribute values - taxon and matrix labels - are escaped as XML (C02 R02.9)")
+        rep.floor("R09.17", "borrowed obligations", 3, borrow(index, rep, "C12", {"R12.8"}, "R09.17") + borrow(index, rep, "C02", {"R02.9"}, "R09.17"))
